@@ -63,7 +63,7 @@ def fmtTracks (ts : List (List (Int × Msg))) : String := fmtList (fmtList fmtEv
 
 def ltRec (a b : NoteRec) : Bool :=
   a.on < b.on || (a.on == b.on && (a.pitch < b.pitch || (a.pitch == b.pitch &&
-    (a.off < b.off || (a.off == b.off && a.ch < b.ch)))))
+    (a.off < b.off || (a.off == b.off && (a.ch < b.ch || (a.ch == b.ch && a.vel < b.vel)))))))
 
 def insRec (x : NoteRec) : List NoteRec → List NoteRec
   | [] => [x]
